@@ -9,7 +9,7 @@ rng = R.rng
 NB, TAPS = 16, 2
 
 
-def source(nant, npol, seed, tone=None, noise=True):
+def source(nant, npol, seed, tone=None, noise=True, level=0.02):
     if nant == 1:
         src = stg.voltage.Antenna(sample_rate=1e6, fch1=0, ascending=True, num_pols=npol, seed=seed)
         streams = src.streams
@@ -20,7 +20,7 @@ def source(nant, npol, seed, tone=None, noise=True):
         if noise:
             s.add_noise(0, 1)
         if tone is not None:
-            s.add_constant_signal(f_start=tone, drift_rate=0, level=0.02)
+            s.add_constant_signal(f_start=tone, drift_rate=0, level=level)
     return src
 
 
@@ -109,20 +109,39 @@ for it in range(R.n(8, 100)):
             [list(map(float, inj.filterbank[0][0].channelized_stds))])
     outb = blocks_of(stem_out, nant, nc, npol, nbits)
     R.check('framing/at-most-input-blocks-same-sizes', dict(c, nsub=nsub), len(outb) == N and all(int(h['BLOCSIZE']) == bs and int(h['NBITS']) == nbits for h, _ in outb), len(outb))
-    # added power per sub-block: |out - in| summed per sub-block should be flat (constant tone, same gain everywhere)
-    if nbits == 8 and N >= 1:
+    for fn in os.listdir(R.tmp):
+        os.unlink(os.path.join(R.tmp, fn))
+# stationary gain on an adequately sized recording (>= 100 samples per sub-block, so that the per-sub-block statistics of the final
+# requantisation are stable): a constant tone adds the same power in every sub-block and block, digitiser on or off, for sub-block counts
+# that do and do not divide the block.  (On the few-sample blocks above the added power per sub-block is dominated by estimation noise and
+# is not compared.)
+for gi, (dig, nsub) in enumerate([(True, 1), (True, 3), (True, 4), (False, 3), (False, 5), (True, 7)][:R.n(4, 6)]):
+    nant, npol, nbits, nc, M = 1, 2, 8, 4, 96
+    bps = 2 * npol
+    bs = M * TAPS * nc * bps
+    c = dict(nant=nant, npol=npol, nbits=nbits, nc=nc, M=M, N=3, nsub=nsub, digitize=dig)
+    be = stg.voltage.RawVoltageBackend(source(nant, npol, 500 + gi), digitizer=stg.voltage.RealQuantizer(num_bits=8), filterbank=stg.voltage.PolyphaseFilterbank(num_taps=TAPS, num_branches=NB),
+                                       requantizer=stg.voltage.ComplexQuantizer(target_fwhm=32, num_bits=8), start_chan=1, num_chans=nc, block_size=bs, blocks_per_file=2, num_subblocks=2)
+    stem_in = os.path.join(R.tmp, f'gin{gi}')
+    be.record(stem_in, num_blocks=3, length_mode='num_blocks', header_dict={'DIRECTIO': gi % 2}, verbose=False)
+    inp = blocks_of(stem_in, nant, nc, npol, nbits)
+    inj = stg.voltage.RawVoltageBackend.from_data(stem_in, source(nant, npol, 900 + gi, tone=2.3e5, noise=False, level=0.6),
+                                                  filterbank=stg.voltage.PolyphaseFilterbank(num_taps=TAPS, num_branches=NB), start_chan=1, num_subblocks=nsub)
+    for a_ in range(nant):
+        for p_ in range(npol):
+            inj.filterbank[a_][p_].channelized_stds = np.array([0.7, 0.7])
+    stem_out = os.path.join(R.tmp, f'gout{gi}')
+    ok = R.guard('gain/record-injection', c, lambda: (inj.record(stem_out, num_blocks=3, length_mode='num_blocks', digitize=dig, verbose=False), True)[1])
+    if ok:
+        outb = blocks_of(stem_out, nant, nc, npol, nbits)
         T = M * TAPS
-        W = int(np.ceil(M / nsub)); subT = TAPS * W
+        subT = TAPS * int(np.ceil(M / nsub))
         pw = []
-        for g_, ((_, a_), (_, b_)) in enumerate(zip(outb, inp)):
+        for (_, a_), (_, b_) in zip(outb, inp):
             diff = np.abs(a_ - b_) ** 2
-            for s0 in range(0, T, subT):
-                seg = diff[:, s0 * npol:(s0 + subT) * npol]
-                if seg.size:
-                    pw.append(seg.mean())
+            pw += [float(diff[:, s0 * npol:(s0 + subT) * npol].mean()) for s0 in range(0, T, subT) if diff[:, s0 * npol:(s0 + subT) * npol].size >= 100]
         pw = np.array(pw)
-        if len(pw) >= 2 and pw.max() > 0.2:
-            R.check('gain/same-added-power-in-every-subblock', dict(c, nsub=nsub, digitize=dig), pw.min() > 0 and pw.max() / pw.min() < 6.0, [float(x) for x in pw[:8]])
+        R.check('gain/same-added-power-in-every-subblock', c, len(outb) == 3 and len(pw) >= 3 and pw.min() > 0.5 and pw.max() / pw.min() < 2.0, [round(x, 2) for x in pw[:10]], 'max/min < 2, min > 0.5')
     for fn in os.listdir(R.tmp):
         os.unlink(os.path.join(R.tmp, fn))
 R.finish()
